@@ -5,6 +5,9 @@ demonstration fails with the change and passes without it; then applies it to /r
 (default: the property's own), undoes it, and files everything under /verif/seeded/<prop>-<n>/."""
 import sys, os, re, subprocess, json, shutil, glob
 
+import fcntl
+_lock = open("/tmp/eval_mutant.lock", "w")
+fcntl.flock(_lock, fcntl.LOCK_EX)  # one evaluation at a time: /repo and the build products are shared
 prop, n = sys.argv[1], sys.argv[2]
 checks = sys.argv[3:] or [prop]
 wt = "/tmp/wt/%s" % prop
@@ -13,8 +16,15 @@ env = dict(os.environ, GOFLAGS="-mod=mod", GOPROXY="off", GOSUMDB="off", GOTOOLC
 
 
 def sh(cmd, cwd=None, timeout=1800):
-    p = subprocess.run(cmd, shell=True, cwd=cwd, env=env, stdout=subprocess.PIPE, stderr=subprocess.STDOUT, timeout=timeout)
-    return p.returncode, p.stdout.decode("utf-8", "replace")
+    import signal
+    p = subprocess.Popen(cmd, shell=True, cwd=cwd, env=env, stdout=subprocess.PIPE, stderr=subprocess.STDOUT, start_new_session=True)
+    try:
+        out, _ = p.communicate(timeout=timeout)
+    except subprocess.TimeoutExpired:
+        os.killpg(p.pid, signal.SIGKILL)
+        out, _ = p.communicate()
+        return 124, out.decode("utf-8", "replace") + "\nTIMEOUT after %ds" % timeout
+    return p.returncode, out.decode("utf-8", "replace")
 
 
 patch = os.path.join(mdir, "patch%s.diff" % n)
